@@ -15,3 +15,5 @@ From Agdb Require Export Collections CollValues.
 From Agdb Require Export StoredDb.
 (* the outcome of loading a database from an arbitrary record store (C07): loaded LAST; unique prefix lo_ (+ load_outcome and the constructors Loaded, LErr, LPanic, LHugeAlloc, LFresh, LLegacy) *)
 From Agdb Require Export LoadOutcome.
+(* the core mutations as storage programs (C05, correspondence (d)): loaded LAST; unique prefix so_ *)
+From Agdb Require Export StoredDbOps.
